@@ -124,6 +124,26 @@ theorem uninstall_after_install_foreign (h : HookSpec) (f : Bytes) (hf : matchFi
     (uninstall limit h (install limit h false (some f)).1).1 = some f := by
   simp [install, uninstall, hf]
 
+/-- UNINSTALL LEAVES NO HOOK OF ITS OWN BEHIND: when none of the hook files is user-owned, `git lfs uninstall`
+    ends without an error and every hook file is gone — whichever of them were absent, current, blank or
+    historical before, in whatever order, for every number of hooks (D76: an absent file used to stop the loop) -/
+theorem uninstall_removes_every_own_hook (hooks : List (HookSpec × Option Bytes))
+    (hown : ∀ hf ∈ hooks, ∀ f, hf.2 = some f → matchFile limit hf.1 f ≠ .foreign) :
+    uninstallAll limit hooks = (hooks.map fun _ => none, false) := by
+  induction hooks with
+  | nil => rfl
+  | cons hf rest ih =>
+    obtain ⟨h, file⟩ := hf
+    have ihr := ih (fun x hx => hown x (List.mem_cons_of_mem _ hx))
+    cases file with
+    | none => simp [uninstallAll, uninstall, ihr]
+    | some f =>
+      have hnf := hown (h, some f) (by simp) f rfl
+      cases hm : matchFile limit h f with
+      | foreign => exact absurd hm hnf
+      | current => simp [uninstallAll, uninstall, hm, ihr]
+      | upgradable => simp [uninstallAll, uninstall, hm, ihr]
+
 /-- filter.lfs.*: without --force a value that is neither empty nor listed upgradeable is never
     replaced, and a differing one is reported -/
 theorem attr_no_overwrite_without_force (current value : Bytes) (ups : List Bytes)
